@@ -12,7 +12,23 @@ def cpfx(cp):
 
 
 def sp(own, body):
-    return f"#[o2o({body})]" if own else f"#[{body}]"
+    return (own, body)
+
+
+def spell(items, grouped):
+    """items: list of (own, body).  own ones are written #[o2o(body)]; with `grouped`, adjacent own ones share one #[o2o(a, b)] list."""
+    out, run = [], []
+    for own, body in items:
+        if own and grouped:
+            run.append(body)
+            continue
+        if run:
+            out.append("#[o2o(" + ", ".join(run) + ")]")
+            run = []
+        out.append(f"#[o2o({body})]" if own else f"#[{body}]")
+    if run:
+        out.append("#[o2o(" + ", ".join(run) + ")]")
+    return " ".join(out)
 
 
 def concretize(c):
@@ -20,7 +36,7 @@ def concretize(c):
     for t in c["traits"]:
         e = "" if t["err"] == "-" else ", Er"
         h = " as {}" if t["hint"] == "struct" else ""
-        a.append(f'#[{t["n"]}({t["cp"]}{h}{e})]')
+        a.append((t.get("own", False), f'{t["n"]}({t["cp"]}{h}{e})'))
     for t in c["tattrs"]:
         n = t["n"]
         arg = {"ghosts": "gx: {gh()}", "where_clause": "T: Clone", "child_parents": "p: P", "parent": "", "literal": "1", "pattern": "_", "type_hint": "as ()",
@@ -58,17 +74,19 @@ def concretize(c):
             else:
                 raise ValueError(n)
             ma.append(sp(x["own"], body))
+        g = c.get("grouped", False)
         if enum:
-            fs.append(" ".join(ma) + f" V{i},")
+            fs.append(spell(ma, g) + f" V{i},")
         elif c["shape"] == "named":
-            fs.append(" ".join(ma) + f" s{i}: V,")
+            fs.append(spell(ma, g) + f" s{i}: V,")
         else:
-            fs.append(" ".join(ma) + " V,")
+            fs.append(spell(ma, g) + " V,")
+    g = c.get("grouped", False)
     if enum:
-        return " ".join(a) + " enum S<T> { " + " ".join(fs) + " }"
+        return spell(a, g) + " enum S<T> { " + " ".join(fs) + " }"
     if c["shape"] == "named":
-        return " ".join(a) + " struct S<T> { " + " ".join(fs) + " }"
-    return " ".join(a) + " struct S<T> ( " + " ".join(fs) + " );"
+        return spell(a, g) + " struct S<T> { " + " ".join(fs) + " }"
+    return spell(a, g) + " struct S<T> ( " + " ".join(fs) + " );"
 
 
 RULES = [
